@@ -455,3 +455,65 @@ M('C12', 'grouped site restores wrong list', SITE, '            JW_Ids[i] = site
   '            JW_Ids[i] = site.Id', 'GROUPED-jw')
 M('C12', 'TermList shares the strength array (seed)', TERMS, 'self.strength = np.array(strength)',
   'self.strength = np.asarray(strength)', 'OWN-attr')
+
+# ---------------------------------------------------------------- C09
+M('C09', 'roll converts to B form (original defect)', MPS,
+  'new_B = [self.get_B(i, form=None) for i in inds]', 'new_B = [self.get_B(i) for i in inds]',
+  'MPS-form-flow')
+M('C09', 'inversion ignores bc (original defect)', MPS,
+  """        if self.bc == 'infinite':
+            # L bonds, S[i] left of site i: the new left bond of site i is the old S[(L-i) % L]
+            self._S = self._S[:1] + self._S[:0:-1]
+        else:
+            self._S = self._S[::-1]""", """        self._S = self._S[::-1]""", 'MPS-bond-reindex')
+M('C09', 'enlarge reads tensors after forms were replaced', MPS,
+  """        self._B = [self.get_B(j, form=None) for j in range(0, factor * self.L)]
+        self._S = [self.get_SL(j) for j in range(0, factor * self.L)]
+        if self.finite:
+            self._S.append([self.get_SR(factor * self.L - 1)])
+        self.sites = [self.get_site(j) for j in range(0, factor * self.L)]
+        self.form = factor * self.form""",
+  """        self.form = factor * self.form
+        self._B = [self.get_B(j, form=None) for j in range(0, factor * self.L)]
+        self._S = [self.get_SL(j) for j in range(0, factor * self.L)]
+        if self.finite:
+            self._S.append([self.get_SR(factor * self.L - 1)])
+        self.sites = [self.get_site(j) for j in range(0, factor * self.L)]""", 'MPS-coupled-order')
+M('C09', 'inversion forgets to swap form exponents', MPS, '(f[1], f[0])', '(f[0], f[1])',
+  'MPS-sided')
+M('C09', 'swap_sites parity order (seed)', MPS,
+  'n_i = np.outer(siteL.JW_exponent, np.ones(dR)).reshape(dL * dR)',
+  'n_i = np.outer(np.ones(dR), siteL.JW_exponent).reshape(dL * dR)', 'MPS-sided')
+M('C09', 'swap_sites drops truncation error', MPS,
+  "U, S, V, err, renormalize = svd_theta(theta, trunc_par, inner_labels=['vR', 'vL'])\n        B_R = V.split_legs(1).ireplace_label('p1', 'p')\n        B_L = npc.tensordot(",
+  "U, S, V, _, renormalize = svd_theta(theta, trunc_par, inner_labels=['vR', 'vL'])\n        err = TruncationError()\n        B_R = V.split_legs(1).ireplace_label('p1', 'p')\n        B_L = npc.tensordot(",
+  'MPS-errflow')
+M('C09', 'permute_sites forgets swap errors', MPS, '                trunc_err += trunc\n', '',
+  'MPS-errflow')
+M('C09', 'get_B scales vR with left singular values', MPS,
+  "B = self._scale_axis_B(B, self.get_SR(i), new_form[1] - old_form[1], 'vR', cutoff)",
+  "B = self._scale_axis_B(B, self.get_SL(i), new_form[1] - old_form[1], 'vR', cutoff)",
+  'MPS-form-flow')
+
+# ---------------------------------------------------------------- C01 / C07
+M('C01', 'take_slice labels from removed axes', NPC, 'res._labels = [labels[a] for a in keep_axes]',
+  'res._labels = [labels[a] for a in axes]', 'AXIS-carriers')
+M('C01', 'trace keeps labels of all axes but two wrong', NPC,
+  'res._labels = [a_labels[ax] for ax in keep]', 'res._labels = [a_labels[ax] for ax in range(len(keep))]',
+  'AXIS-carriers')
+M('C01', 'tensordot labels cut at wrong position', NPC,
+  '_drop_duplicate_labels(a._labels[: a.rank - axes], b._labels[axes:])',
+  '_drop_duplicate_labels(a._labels[: a.rank - axes], b._labels[: b.rank - axes])', 'LABEL-cut')
+M('C01', 'binary merge swaps operands (seed)', NPC,
+  'data.append(func(np.zeros_like(bdata[j]), bdata[j]))',
+  'data.append(func(bdata[j], np.zeros_like(bdata[j])))', 'SIDES-binary')
+M('C01', 'add_leg inserts label at wrong axis', NPC, '        labels.insert(axis, label)\n',
+  '        labels.insert(0, label)\n', 'AXIS-insert')
+M('C07', 'set_svd_theta records U as B form', MPS,
+  "self.set_B(i, U.itranspose(self._B_labels), form='A')",
+  "self.set_B(i, U.itranspose(self._B_labels), form='B')", None)
+M('C07', 'TDVP stores VH as A', TDVP, "self.psi.set_B(i0 + 1, B1, form='B')",
+  "self.psi.set_B(i0 + 1, B1, form='A')", 'FORM-isometry')
+M('C07', 'canonical form back sweep reads B tensors', MPS, "            M = self.get_B(i, 'A')\n",
+  "            M = self.get_B(i, 'B')\n", 'FORM-canonical')
+M('C07', 'valid forms table C changed', MPS, "'C': (0.5, 0.5),", "'C': (0.5, 1.0),", 'MPS-form-table')
